@@ -62,7 +62,9 @@ Inductive Op :=
 | OIterNew                  (* start a fresh iterator, replacing the current one *)
 | ONext | OSizeHint         (* on the current iterator *)
 | OCollect                  (* drain the current iterator *)
-| OBulk.
+| OBulk
+(* other std::iter::Iterator methods, all defined in terms of `next` *)
+| ONth (k : nat) | OStepBy (k : nat) | OCount | OLast.
 
 Inductive Obs :=
 | BNat (n : nat) | BBool (b : bool) | BItem (i : option nat)
@@ -78,6 +80,15 @@ Definition step (d : Deser) (it : Iter) (o : Op) : Obs * Iter :=
   | OSizeHint => let '(lo, hi) := size_hint it in (BHint lo hi, it)
   | OCollect => (BItems (drain it), {| it_d := d; it_next := Nat.max (it_next it) (d_len d) |})
   | OBulk => (BItems (bulk d), it)
+  | ONth k =>
+    let pos := it_next it + k in
+    if Nat.ltb pos (d_len d) then (BItem (Some pos), {| it_d := d; it_next := S pos |})
+    else (BItem None, {| it_d := d; it_next := Nat.max (it_next it) (d_len d) |})
+  | OStepBy k =>
+    (BItems (filter (fun i => Nat.eqb ((i - it_next it) mod (S k)) 0) (drain it)),
+     {| it_d := d; it_next := Nat.max (it_next it) (d_len d) |})
+  | OCount => (BNat (length (drain it)), {| it_d := d; it_next := Nat.max (it_next it) (d_len d) |})
+  | OLast => (BItem (last (map Some (drain it)) None), {| it_d := d; it_next := Nat.max (it_next it) (d_len d) |})
   end.
 
 Fixpoint run_ops (d : Deser) (it : Iter) (ops : list Op) : list Obs :=
